@@ -25,28 +25,37 @@ let stat st key =
         | _ -> go r) in
   go (String.split_on_char ',' st)
 
-let verdict_e n nodes per lo hi planned sa pl pre rq st =
+let verdict_e n nodes per lo hi planned sa pl pre busy rq st =
   let n = n_of_hex n and lo = n_of_hex lo and hi = n_of_hex hi in
   let nodes = int_of_n (n_of_hex nodes) and per = int_of_n (n_of_hex per) in
   let planned = nlist_of_string planned in
   let pre = nlist_of_string (strip_prefix "pre=" pre) in
+  let busy = nlist_of_string (strip_prefix "busy=" busy) in
   let sa = strip_prefix "sa=" sa and pl = strip_prefix "pl=" pl in
   let sa = if sa = "-" then [] else List.map (fun t -> match dotted t with
       | [nd; port; shard] -> (int_of_n nd, port, shard) | _ -> failwith "sa entry") (split_on ',' sa) in
   let pl = if pl = "-" then [] else List.map (fun t -> match dotted t with
       | [nd; shard] -> (int_of_n nd, shard) | _ -> failwith "pl entry") (split_on ',' pl) in
   if List.exists (fun p -> not (List.mem p planned)) pre then "error harness pre-bound port that was not planned"
-  else if List.exists (fun (nd, _, _) -> nd >= nodes) sa then "error harness node index"
+  else if List.exists (fun p -> List.mem p pre) busy then "error harness busy port that is held"
+  else if List.exists (fun (nd, _, _) -> nd >= nodes) sa || List.exists (fun (nd, _) -> nd >= nodes) pl then "error harness node index"
   else
-  (* the property, evaluated on what the mock accepted (C11_connect_accept_iff) *)
-  if not (accept_conns n lo hi pre (List.map (fun (_, port, shard) -> (port, shard)) sa)) then begin
-    let (nd, port, shard) = List.find (fun (_, port, shard) -> not (accept_conn n lo hi pre port shard)) sa in
-    Printf.sprintf "viol shard-aware-connection node=%d port=%s shard=%s range=%s..%s pre-bound=%s"
-      nd (hex_of_n port) (hex_of_n shard) (hex_of_n lo) (hex_of_n hi) (string_of_nlist pre)
-  end else
-  (* correspondence with the model of the loop and with the pool's documented reaction *)
+  (* the PROPERTY on what the mock accepted: port in [lo,hi], congruent to the shard the node assigned
+     (accept_conn with nothing held; C11_connect_accept_reflect) *)
+  match List.find_opt (fun (_, port, shard) -> not (accept_conn n lo hi [] port shard)) sa with
+  | Some (nd, port, shard) ->
+    Printf.sprintf "viol shard-aware-connection node=%d port=%s shard=%s range=%s..%s nr_shards=%s"
+      nd (hex_of_n port) (hex_of_n shard) (hex_of_n lo) (hex_of_n hi) (hex_of_n n)
+  | None ->
+  (* not a sentence of C11: a connection from a port the harness holds bound (harness / OS fault) *)
+  match List.find_opt (fun (_, port, _) -> List.mem port pre) sa with
+  | Some (nd, port, _) -> Printf.sprintf "diff harness-held-port node=%d port=%s pre-bound=%s" nd (hex_of_n port) (string_of_nlist pre)
+  | None ->
+  (* correspondence with the model of the loop (RUN here: open_many / some_pivot_gives are the extracted
+     connect_loop over the extracted iterator) and with the pool's documented reaction *)
   let shards = List.init (int_of_n n) n_of_int in
-  let pairs = List.concat_map (fun nd -> List.map (fun s -> (nd, s)) shards) (List.init nodes (fun i -> i)) in
+  let node_ids = List.init nodes (fun i -> i) in
+  let pairs = List.concat_map (fun nd -> List.map (fun s -> (nd, s)) shards) node_ids in
   let starved = List.filter (fun (_, s) -> starvedb n s lo hi pre) pairs in
   let count_sa (nd, s) = List.length (List.filter (fun (nd', _, s') -> nd' = nd && s' = s) sa) in
   let count_pl (nd, s) = List.length (List.filter (fun (nd', s') -> nd' = nd && s' = s) pl) in
@@ -57,14 +66,45 @@ let verdict_e n nodes per lo hi planned sa pl pre rq st =
     Printf.sprintf "diff starved-shards model=%d runner=%d" (List.length starved) (stat st "starved")
   else match List.find_opt (fun pr -> count_sa pr > per) pairs with
     | Some (nd, s) ->
-      (* the loop returns at the first successful connection: one connection per pool slot *)
       Printf.sprintf "diff more-shard-aware-connections-than-pool-slots node=%d shard=%s count=%d per=%d" nd (hex_of_n s) (count_sa (nd, s)) per
     | None ->
       match List.find_opt (fun pr -> count_pl pr < per) starved with
       | Some (nd, s) ->
         (* after NoSourcePortForShard the refiller retries through the plain port until the shard is served *)
         Printf.sprintf "diff starved-shard-not-served-through-plain-port node=%d shard=%s" nd (hex_of_n s)
-      | None -> "ok"
+      | None ->
+        (* every accepted port is the loop's outcome for some pivot when exactly the held ports are busy *)
+        let nports s = List.length (spec_ports n s lo hi) in
+        match List.find_opt (fun (_, port, shard) -> not (some_pivot_gives n shard lo hi pre port (nat_of_int (max 1 (nports shard))))) sa with
+        | Some (nd, port, shard) ->
+          Printf.sprintf "diff model-loop-never-gives-this-port node=%d port=%s shard=%s" nd (hex_of_n port) (hex_of_n shard)
+        | None ->
+          (* how many shard-aware connections the model opens per shard.  Runs of the loop = pool slots the
+             refiller fills through the shard-aware port in its first round: per_shard on every node, minus
+             the node's first pool connection (plain port) on the shard it landed on.  All nodes draw from the
+             same local ports.  busy= ports are unavailable for an unknown part of the scenario: interval. *)
+          let first nd = match List.find_opt (fun (nd', _) -> nd' = nd) pl with Some (_, s) -> Some s | None -> None in
+          if List.exists (fun nd -> first nd = None) node_ids then "diff node-without-plain-pool-connection"
+          else begin
+            let off = ref [] and pred = ref 0 and skp = ref 0 and pwr = ref 0 in
+            List.iter (fun s ->
+                let runs = List.fold_left (fun a nd -> a + per - (if first nd = Some s then 1 else 0)) 0 node_ids in
+                let pivots = List.init runs (fun i -> nat_of_int i) in
+                let hi_cnt = List.length (open_many n s lo hi pivots pre) in
+                let lo_cnt = List.length (open_many n s lo hi pivots (pre @ busy)) in
+                let got = List.length (List.filter (fun (_, _, s') -> s' = s) sa) in
+                pred := !pred + hi_cnt;
+                if List.exists (fun p -> List.mem p pre || List.mem p busy) (spec_ports n s lo hi) then skp := !skp + got;
+                (* per mille: chance that the FIRST run for this shard draws a pivot on a held port although a free
+                   one exists, i.e. that a loop giving up at the first busy port opens fewer connections than the model *)
+                (let k = List.length (spec_ports n s lo hi) and f = List.length (free_ports n s lo hi pre) in
+                 if runs > 0 && f > 0 && k > 0 then pwr := !pwr + 1000 * (k - f) / k);
+                if got < lo_cnt || got > hi_cnt then
+                  off := Printf.sprintf "shard=%s,got=%d,model=%d..%d" (hex_of_n s) got lo_cnt hi_cnt :: !off) shards;
+            match !off with
+            | [] -> Printf.sprintf "ok e2e cnt=exact pred=%d skp=%d pwr=%d" !pred !skp !pwr
+            | l -> Printf.sprintf "ok e2e cnt=off pred=%d skp=%d pwr=%d %s" !pred !skp !pwr (String.concat ";" (List.rev l))
+          end
 
 let verdict case impl =
   match case, impl with
@@ -107,8 +147,8 @@ let verdict case impl =
          "viol model=" ^ ms
        | _ -> "diff model=" ^ ms)
   | ("E" :: _), ("not-run" :: rest) -> "ok not-run " ^ String.concat " " rest
-  | ["E"; _; n; nodes; per; lo; hi; planned], [sa; pl; pre; rq; st] ->
-    verdict_e n nodes per lo hi planned sa pl pre rq st
+  | ["E"; _; n; nodes; per; lo; hi; planned], [sa; pl; pre; busy; rq; st] ->
+    verdict_e n nodes per lo hi planned sa pl pre busy rq st
   | _ -> "error unknown-case"
 
 let () = run_lines verdict
